@@ -7,6 +7,8 @@ WT=/tmp/wt_$PID
 J=${AS:-$I}   # store under another index (round 2: AS=3 / AS=4)
 D=/verif/seeded/${PID}_$J
 set -u
+export VERIF_EVIDENCE_DIR=$(mktemp -d /tmp/verif_seed_evidence.XXXXXX)  # never overwrite the evidence of the unchanged tree
+trap 'rm -rf "$VERIF_EVIDENCE_DIR"' EXIT
 cd $WT || exit 2
 git checkout -q -- magpylib tests 2>/dev/null
 PYTHONPATH=$WT /venv/bin/python demo_$I.py >/tmp/seed_clean.out 2>&1; C=$?
